@@ -24,6 +24,24 @@ def trees1():
                 yield '(%s %s)' % (op, ' '.join(args))
 
 
+def targeted():
+    """partial-folding shapes, always run: runs of adjacent literals next to non-literal / list / string operands"""
+    out = []
+    plus_atoms = ['"a"', '"b"', '1', '2', "'(1)", 'x', '(list 1 x)']
+    for ar in (3, 4):
+        for args in itertools.product(plus_atoms, repeat=ar):
+            if ar == 4 and (args[0] != args[1] and args[2] != args[3]):
+                continue
+            out.append('(+ %s)' % ' '.join(args))
+    mul_atoms = ['2', '3', '0', 'x', '#t', '(do (print "m") 2)']
+    for args in itertools.product(mul_atoms, repeat=3):
+        out.append('(* %s)' % ' '.join(args))
+    for op in ('&&', '||'):
+        for args in itertools.product(['0', '1', 'x', '(do (print "c") 0)', '""'], repeat=3):
+            out.append('(%s %s)' % (op, ' '.join(args)))
+    return out
+
+
 def trees2(rng, n):
     out = []
     for _ in range(n):
@@ -69,9 +87,9 @@ def run(tier, seed, replay=None):
     vcd, info = gen.simple_trace(rng, n=5, scopes={'top': ['clk', 'a']})
     t1 = list(trees1())
     if tier == 'quick':
-        texts = rng.sample(t1, 500) + trees2(rng, 250) + [deep(rng) for _ in range(250)]
+        texts = rng.sample(t1, 500) + trees2(rng, 250) + [deep(rng) for _ in range(250)] + targeted()
     else:
-        texts = t1 + trees2(rng, 6000) + [deep(rng) for _ in range(6000)]
+        texts = t1 + trees2(rng, 6000) + [deep(rng) for _ in range(6000)] + targeted()
         rep.extra['exhaustive_depth1_arity3'] = len(t1)
     texts = list(dict.fromkeys(texts))
     setup = [['file', 't.vcd', vcd], ['load', 't.vcd', 'DEFAULT']]
